@@ -316,6 +316,12 @@ func (m *resourceManager) handleReadResource(ctx context.Context, req *JSONRPCRe
 	if err != nil {
 		return newJSONRPCErrorResponse(req.ID, ErrCodeInternal, err.Error(), nil), nil
 	}
+	if contents == nil {
+		// A handler that returns neither contents nor an error: "contents": null would not be
+		// a resources/read result (an empty list is).
+		return newJSONRPCErrorResponse(req.ID, ErrCodeInternal,
+			fmt.Sprintf("resource %s: handler returned no content", uri), nil), nil
+	}
 
 	// Create result
 	result := ReadResourceResult{
